@@ -197,6 +197,16 @@ pub struct RunOutcome {
 const AMPLE: usize = 1 << 20;
 
 pub fn execute(prep: &Prepared, op: &StoreOp, capacity: usize) -> RunOutcome {
+    execute_with_history(prep, op, capacity, false)
+}
+
+/// `warm`: the judged call is preceded, on the same thread, by a successful call on the intact blob
+/// with an ample budget (a budget must be enforced per call, whatever this thread did before)
+pub fn execute_with_history(prep: &Prepared, op: &StoreOp, capacity: usize, warm: bool) -> RunOutcome {
+    if warm {
+        let _ = catch_unwind(AssertUnwindSafe(|| preflate_rs::decompress_zstd(&prep.blob, prep.expanded.len() * 2 + (1 << 20))));
+        let _ = util::take_last_panic();
+    }
     let stored = apply(prep, op);
     let stored_equals_blob = stored == prep.blob;
     // an empty object is zero frames for zstd's bulk API (Ok(empty)); it is not a zstd frame
@@ -529,6 +539,9 @@ impl Engine for BlobEngine {
         let mut seen: HashSet<u64> = HashSet::new();
 
         let mut plans: Vec<(StoreOp, usize)> = Vec::new();
+        // plans with index >= warm_from are executed after a warm-up call (see execute_with_history)
+        #[allow(unused_assignments)]
+        let mut warm_from = usize::MAX;
         // capacities on the intact blob
         let mut caps: Vec<usize> = vec![0, 1, e.saturating_sub(2), e.saturating_sub(1), e, e + 1, e + 2, ample];
         for k in [4usize, 8, 12, 16, 20, 24, 26] {
@@ -638,17 +651,31 @@ impl Engine for BlobEngine {
             plans.push((op, c));
         }
 
-        for (op, cap) in plans.iter() {
+        // the same boundary budgets again, each right after a successful call with an ample budget
+        warm_from = plans.len();
+        for c in [0usize, 1, e / 2, e.saturating_sub(2), e.saturating_sub(1), e, e + 1] {
+            plans.push((StoreOp::Intact, c));
+        }
+        for _ in 0..6 {
+            plans.push((StoreOp::Intact, rng.range(0, e as u64) as usize));
+        }
+        plans.push((StoreOp::TornPrefix(blen / 2), ample));
+        plans.push((StoreOp::Foreign(0, 0, 0), ample));
+        for (pi, (op, cap)) in plans.iter().enumerate() {
             if res.violations.len() >= 3 {
                 break;
             }
-            announce_run(ctx, || replay_doc(&prep, Some((ctx.master_seed, ctx.job, ctx.tier.name())), op, *cap, false));
-            let out = execute(&prep, op, *cap);
+            let warm = pi >= warm_from;
+            announce_run(ctx, || replay_doc(&prep, Some((ctx.master_seed, ctx.job, ctx.tier.name())), op, *cap, false).set("warm", J::Bool(warm)));
+            let out = execute_with_history(&prep, op, *cap, warm);
+            if warm {
+                res.bump("fault.history.budget_after_ample_call");
+            }
             res.evaluations += 1;
             res.steps += 1;
             digest.u64(out.digest);
             let nontrivial = !out.stored_equals_blob || *cap != ample;
-            if nontrivial && seen.insert(op_key(op, *cap)) {
+            if nontrivial && seen.insert(op_key(op, *cap) ^ if warm { 0x5a5a } else { 0 }) {
                 res.distinct += 1;
             }
             res.bump(&format!("fault.store.{}", op.class()));
@@ -699,6 +726,7 @@ impl Engine for BlobEngine {
                 let mut doc = replay_doc(&prep, Some((ctx.master_seed, ctx.job, ctx.tier.name())), op, *cap, true);
                 doc.put("digest", J::Str(format!("{:016x}", out.digest)));
                 doc.put("observed", observed(&out));
+                doc.put("warm", J::Bool(warm));
                 res.violations.push(Violation {
                     clause,
                     key,
@@ -763,7 +791,8 @@ impl Engine for BlobEngine {
                 return bad(format!("workload no longer round-trips fault-free on this tree ({})", r));
             }
         };
-        let out = execute(&prep, &op, cap as usize);
+        let warm = doc.get("warm").and_then(|w| w.as_bool()).unwrap_or(false);
+        let out = execute_with_history(&prep, &op, cap as usize, warm);
         match judge(&prep, cap as usize, &out) {
             Some((clause, what)) => ReplayOutcome {
                 clause: Some(clause),
